@@ -15,7 +15,7 @@ import (
 
 func init() {
 	simrt.Register(&simrt.Scenario{
-		Prop: "C12", Name: "mb-close", Count: tiered(400, 20000),
+		Prop: "C12", Name: "mb-close", Count: tiered(400, 160000),
 		Run: c12Mailbox, MaxOps: 6 << 20, Horizon: 4 * time.Hour,
 		Doc: "full stack over the stub relay; at a tape-chosen moment of an established connection (idle, mid-transfer) the client side, the server side or both call Close (1-2 concurrent callers, then once more); bounded return, both applications' blocked Read/Write fail, and after the listener and dialer are shut down no goroutine or ticker of gbn/mailbox is left",
 	})
